@@ -318,10 +318,11 @@ func (x *Exec) heapGet(st *State, key string, s Sort) Term {
 	if t, ok := st.heap[key]; ok {
 		return t
 	}
-	if st.names["$stale:"+key] == true {
-		// havocked before its first use on this path
+	if nm, ok := st.names["$stale:"+key].(string); ok {
+		// havocked before its first use on this path: the version chosen at the havoc, so that states
+		// cloned in between (old-state snapshots) agree on it
 		delete(st.names, "$stale:"+key)
-		t := x.fresh(key+"_h", s)
+		t := x.declConst(nm, s)
 		st.heap[key] = t
 		return t
 	}
@@ -340,7 +341,8 @@ func (x *Exec) heapHavoc(st *State, key string) {
 		}
 	}
 	if s == "" {
-		st.names["$stale:"+key] = true // sort not known yet: the first read on this path gets a fresh version
+		x.nfresh++
+		st.names["$stale:"+key] = fmt.Sprintf("%s_hs%d", sanitize(key), x.nfresh) // sort not known yet: named now, declared at the first read
 		return
 	}
 	st.heap[key] = x.fresh(key+"_h", s)
@@ -818,6 +820,9 @@ func (x *Exec) evalObject(o types.Object, st *State) (Value, types.Type) {
 			s := x.sortOf(o.Type())
 			v := x.heapGet(st, globalKey(o), s)
 			x.tableAssume(st, o, v)
+			if o.Pkg() == x.pkg.Types && s == SInt && x.L.globalNonNilError(o) {
+				st.assume("(not (= " + v.S + " 0))") // var e = errors.New(...), never assigned: non-nil
+			}
 			return v, o.Type()
 		}
 		if x.openCaptured {
@@ -1175,7 +1180,7 @@ func (x *Exec) divPanic(st *State, divisor Term) {
 	if x.litDepth == 0 || x.contract {
 		return
 	}
-	st.names["$pendingPanicCond"] = "(= " + divisor.S + " " + zeroOf(divisor.Sort).S + ")"
+	addPendingPanic(st, "(= "+divisor.S+" "+zeroOf(divisor.Sort).S+")", "integer divide by zero")
 }
 
 func typeBasic(ts ...types.Type) (*types.Basic, bool) {
